@@ -41,6 +41,8 @@ What is mirrored, statement by statement:
   until the next HandshakeAck, data packets read meanwhile are ignored, while `ResponseMID` keeps
   writing (it refuses only StatusClosed).  A `req` of a history is therefore a request the reader
   DELIVERED; the driver drops the ones sent between a re-handshake and its ack.
+* `Service.doRequestEx`: when `remote.Serialize` of the envelope fails (route not valid UTF-8) nothing
+  is sent, the pending entry is deleted and the callback completed once with the error.
 * request expiry: an entry older than 30 s is completed with `ErrTimeout` by the 1 s
   scan, i.e. in (30 s, 31 s]; a reply arriving later finds no entry and is dropped.
 
@@ -259,13 +261,22 @@ def relay (s : Sess) (msg : ClientMsg) : Option (Nat × BackReply) → List Effe
     else if rep.sessionId ≠ s.sid ∨ rep.clientReqId ≠ msg.id then []      -- "missmatch res": dropped
     else [.respond d s.sid msg.id rep.res]
 
+/-- can `remote.Serialize` marshal the stamped envelope?  `Route` is a proto3 `string`: it must be
+valid UTF-8.  Routes of the model are the bytes the client sent with every byte that is not part of
+a valid UTF-8 sequence shown as U+FFFD (a genuine U+FFFD is not distinguished — not generated). -/
+def routeSerialisable (r : String) : Bool := !(r.toList.contains '\uFFFD')
+
 def forward (fx : Fixes) (c : Cfg) (s : Sess) (msg : ClientMsg) (t : String) : List Effect :=
   let r := c.route t s
   match (if r = "" then none else c.dir r) with           -- app.RoutePID
   | none => if fx.d4a = true ∧ msg.id ≠ 0 then [.respond 0 s.sid msg.id .error] else []
   | some inst =>
     let f : FwdMsg := ⟨stamp fx s, msg.id, msg.route, msg.pay⟩
-    if inst.alive = false then
+    if routeSerialisable msg.route = false then
+      -- doRequestEx: remote.Serialize fails → nothing is sent; a request's pending entry is removed and
+      -- its callback completed with the error (→ error response); a notify just vanishes
+      (if msg.id = 0 then [] else [.respond 0 s.sid msg.id .error])
+    else if inst.alive = false then
       (if msg.id = 0 then [] else relay s msg none)
     else
       let out := processForward fx c r inst f
